@@ -13,9 +13,9 @@
 //!   OffsetArc::make_mut observes the count, the caller's handle and the ledger unchanged, for
 //!   every count value.
 //! ASSUME: alloc/dealloc logging stubs; handle_alloc_error stubbed (records, ends the path).
-//! OUTSIDE: everything that happens AFTER a panic starts to propagate (Kani models panic as the
-//!   end of the path: no unwinding, no drop on unwind, no catch_unwind): DropGuard write-back in
-//!   with_arc_mut, ManuallyDrop parking in OffsetArc::make_mut, leak of the half-built block.
+//! OUTSIDE: (for these Kani harnesses) everything that happens AFTER a panic starts to propagate:
+//!   Kani models panic as the end of the path. The state left behind by a propagating panic is
+//!   decided by Engine U (wmm/unwind.py, DESIGN 10.5) as the second part of this check.
 use crate::ghost::*;
 use crate::kinds::*;
 use core::mem::{forget, ManuallyDrop, MaybeUninit};
